@@ -184,6 +184,16 @@ pub fn host_parse(bytes: &[u8]) -> Result<(char, u128, String, String), String> 
   })
 }
 
+/// `Url::parse` followed by `to_string()`, exactly what imdl stores / prints for every
+/// value it types as `Url` (`--announce`, `--update-url`, `announce`, `tr=`), after the
+/// UTF-8 check that `&str` implies.
+pub fn url_norm(bytes: &[u8]) -> Result<String, String> {
+  let text = std::str::from_utf8(bytes).map_err(|e| e.to_string())?;
+  Url::parse(text)
+    .map(|url| url.to_string())
+    .map_err(|e| e.to_string())
+}
+
 pub fn hostport_to_bencode(text: &str) -> Result<Vec<u8>, String> {
   let hp = text.parse::<HostPort>().map_err(|e| e.to_string())?;
   bendy::serde::ser::to_bytes(&hp).map_err(|e| e.to_string())
